@@ -205,6 +205,15 @@ pub fn run(ctx: &Ctx) {
     ctx.generated("generated_library_rng", "proptest cases, nonce from the library's RNG: independent decryption, round trip", ctx.tier.pick(1_500, 30_000), move || enc_case(false, maxlen), check_enc);
     ctx.generated("reference_encrypted", "ciphertexts made by the reference encryptor decrypt under the library", ctx.tier.pick(1_000, 20_000), move || enc_case(true, 600), check_ref_enc);
 
+    ctx.cold("cold_start_encrypt", "encrypt (nonce injected) as the first library operation of a fresh process, four configurations", move || {
+        (0..4u8).map(|cfg| EncCase { d: gen::hex32(&(from_be(&expand_bytes(seed ^ 0xc05d ^ cfg as u64, 32)) % (&r2::params().n - 2u32) + 1u32)), msg_len: 20 + cfg as usize * 17, msg_seed: cfg as u64, msg_class: 0, compressed: cfg & 1 == 1, c1c3c2: cfg & 2 == 2,
+            k: Some(gen::hex32(&(from_be(&expand_bytes(seed ^ 0xc05e ^ cfg as u64, 32)) % (&r2::params().n - 1u32) + 1u32))) }).collect()
+    }, check_enc);
+    ctx.cold("cold_start_decrypt", "decrypt of a reference-made ciphertext as the first library operation of a fresh process, four configurations", move || {
+        (0..4u8).map(|cfg| EncCase { d: gen::hex32(&(from_be(&expand_bytes(seed ^ 0xc05f ^ cfg as u64, 32)) % (&r2::params().n - 2u32) + 1u32)), msg_len: 33 + cfg as usize * 9, msg_seed: cfg as u64, msg_class: 0, compressed: cfg & 1 == 1, c1c3c2: cfg & 2 == 2,
+            k: Some(gen::hex32(&(from_be(&expand_bytes(seed ^ 0xc060 ^ cfg as u64, 32)) % (&r2::params().n - 1u32) + 1u32))) }).collect()
+    }, check_ref_enc);
+
     ctx.listed("foreign_c1_edge_points", "conforming ciphertexts whose C1 is a boundary point (x next to 0, n, p, 2^256-p, powers of two, Montgomery limb patterns, y with a leading zero byte), built with [d]C1, x 4 configurations x 2 keys", move || {
         let mut v = Vec::new();
         for point in 0..edge_points().len() {
